@@ -638,10 +638,11 @@ func NewPeerFromConfigStruct(pconf *Neighbor) *api.Peer {
 		},
 		Timers: &api.Timers{
 			Config: &api.TimersConfig{
-				ConnectRetry:           uint64(timer.Config.ConnectRetry),
-				HoldTime:               uint64(timer.Config.HoldTime),
-				KeepaliveInterval:      uint64(timer.Config.KeepaliveInterval),
-				IdleHoldTimeAfterReset: uint64(timer.Config.IdleHoldTimeAfterReset),
+				ConnectRetry:                 uint64(timer.Config.ConnectRetry),
+				HoldTime:                     uint64(timer.Config.HoldTime),
+				KeepaliveInterval:            uint64(timer.Config.KeepaliveInterval),
+				MinimumAdvertisementInterval: uint64(timer.Config.MinimumAdvertisementInterval),
+				IdleHoldTimeAfterReset:       uint64(timer.Config.IdleHoldTimeAfterReset),
 			},
 			State: &api.TimersState{
 				KeepaliveInterval:  uint64(timer.State.KeepaliveInterval),
@@ -701,6 +702,13 @@ func NewPeerGroupFromConfigStruct(pconf *PeerGroup) *api.PeerGroup {
 
 	timer := pconf.Timers
 	s := pconf.State
+	var removePrivate api.RemovePrivate
+	switch pconf.Config.RemovePrivateAs {
+	case REMOVE_PRIVATE_AS_OPTION_ALL:
+		removePrivate = api.RemovePrivate_REMOVE_PRIVATE_ALL
+	case REMOVE_PRIVATE_AS_OPTION_REPLACE:
+		removePrivate = api.RemovePrivate_REMOVE_PRIVATE_REPLACE
+	}
 	return &api.PeerGroup{
 		ApplyPolicy: newApplyPolicyFromConfigStruct(&pconf.ApplyPolicy),
 		Conf: &api.PeerGroupConf{
@@ -708,6 +716,7 @@ func NewPeerGroupFromConfigStruct(pconf *PeerGroup) *api.PeerGroup {
 			LocalAsn:             pconf.Config.LocalAs,
 			Type:                 toPeerType(pconf.Config.PeerType),
 			AuthPassword:         pconf.Config.AuthPassword,
+			RemovePrivate:        removePrivate,
 			RouteFlapDamping:     pconf.Config.RouteFlapDamping,
 			Description:          pconf.Config.Description,
 			PeerGroupName:        pconf.Config.PeerGroupName,
@@ -732,10 +741,11 @@ func NewPeerGroupFromConfigStruct(pconf *PeerGroup) *api.PeerGroup {
 		},
 		Timers: &api.Timers{
 			Config: &api.TimersConfig{
-				ConnectRetry:           uint64(timer.Config.ConnectRetry),
-				HoldTime:               uint64(timer.Config.HoldTime),
-				KeepaliveInterval:      uint64(timer.Config.KeepaliveInterval),
-				IdleHoldTimeAfterReset: uint64(timer.Config.IdleHoldTimeAfterReset),
+				ConnectRetry:                 uint64(timer.Config.ConnectRetry),
+				HoldTime:                     uint64(timer.Config.HoldTime),
+				KeepaliveInterval:            uint64(timer.Config.KeepaliveInterval),
+				MinimumAdvertisementInterval: uint64(timer.Config.MinimumAdvertisementInterval),
+				IdleHoldTimeAfterReset:       uint64(timer.Config.IdleHoldTimeAfterReset),
 			},
 			State: &api.TimersState{
 				KeepaliveInterval:  uint64(timer.State.KeepaliveInterval),
